@@ -5,7 +5,7 @@ mkdir -p /tmp/sw; git -C /repo worktree remove --force $WT 2>/dev/null; rm -rf $
 git -C /repo worktree add -q --detach $WT HEAD || exit 9
 git -C $WT apply $D/patch.diff || { echo "$ID apply failed"; git -C /repo worktree remove --force $WT; exit 3; }
 cd "$(dirname "$0")/.."
-VERIF_REPO=$WT VERIF_NO_EVIDENCE=1 VERIF_REPLAY_DIR=/tmp/sw/replays ./check $P --tier $TIER > /tmp/sw/$ID-$P.log 2>&1; rc=$?
-echo "$ID $P exit=$rc $(grep -c '^VIOLATION' /tmp/sw/$ID-$P.log) violation lines; $(grep -m1 '^INCONCLUSIVE' /tmp/sw/$ID-$P.log | head -c 200)"
+VERIF_REPO=$WT VERIF_NO_EVIDENCE=1 VERIF_REPLAY_DIR=/tmp/sw/replays ./check $P --tier $TIER > /tmp/sw/$ID-$P${VERIF_SEED:+.s$VERIF_SEED}.log 2>&1; rc=$?
+echo "$ID $P exit=$rc $(grep -c "^VIOLATION" /tmp/sw/$ID-$P${VERIF_SEED:+.s$VERIF_SEED}.log) violation lines; $(grep -m1 "^INCONCLUSIVE" /tmp/sw/$ID-$P${VERIF_SEED:+.s$VERIF_SEED}.log | head -c 200)"
 git -C /repo worktree remove --force $WT
 exit $rc
